@@ -3,8 +3,10 @@ import os, re
 from vlib import Case, Stream, BUILD, model_cmd
 
 ID = "C17"
-LEAN_MODULES = ["HgVerif.Props.C17"]
-THEOREMS = [
+LEAN_MODULES = ["HgVerif.Props.C17", "HgVerif.Model.Tie2", "HgVerif.Model.Extracted"]
+USES_EXTRACT = True
+THEOREMS = ["HgVerif.Tie.tie_rtDrainLimit", "HgVerif.Tie.tie_rtCutWall", "HgVerif.Tie.tie_rtCutNext", "HgVerif.Tie.tie_rtCutCount", "HgVerif.Tie.tie_rtNextShape",
+    
     "HgVerif.Realtime.inv_reachable",
     "HgVerif.Realtime.rt_times_strict", "HgVerif.Realtime.rt_times_strict_from",
     "HgVerif.Realtime.rt_at_exact_T", "HgVerif.Realtime.rt_no_drop",
